@@ -1490,7 +1490,7 @@ impl Prop for C14 {
     }
     fn runs(&self, tier: Tier) -> u64 {
         match tier {
-            Tier::Quick => 3000,
+            Tier::Quick => 9000,
             Tier::Thorough => 45000,
         }
     }
